@@ -70,7 +70,7 @@ package stackage
 //@ func (*stack).canPushNester
 //@ tags C13
 //@ requires wf(r)
-//@ ensures[C13:canPushNester] can == accept(bit(F_nodeConfig_opt[cfgOf(r)], 0x0100), x)
+//@ ensures[C13,C12:canPushNester] can == accept(bit(F_nodeConfig_opt[cfgOf(r)], 0x0100), x)
 //@ modifies nothing
 
 //@ func (*stack).genericAppend
@@ -358,8 +358,8 @@ package stackage
 //@ safety C08
 //@ requires wfs(r) && okslice(indices, alloc)
 //@ let def := WalkDef(r, indices)
-//@ ensures[C07:traverse.ok] def ==> ok == WalkOk(r, indices)
-//@ ensures[C07:traverse.val] def ==> slice == WalkV(r, indices)
+//@ ensures[C07,C12:traverse.ok] def ==> ok == WalkOk(r, indices)
+//@ ensures[C07,C12:traverse.val] def ==> slice == WalkV(r, indices)
 //@ ensures[C07:traverse.fail] !ok ==> slice == nil
 //@ modifies G_calls_len, G_calls_fn, G_calls_arg
 
@@ -369,8 +369,8 @@ package stackage
 //@ requires r == nil || wf(r)
 //@ requires okslice(indices, alloc)
 //@ let def := WalkDef(hdr(r), indices)
-//@ ensures[C07:Traverse.ok] r != nil && def ==> ok == WalkOk(hdr(r), indices)
-//@ ensures[C07:Traverse.val] r != nil && def ==> slice == WalkV(hdr(r), indices)
+//@ ensures[C07,C12:Traverse.ok] r != nil && def ==> ok == WalkOk(hdr(r), indices)
+//@ ensures[C07,C12:Traverse.val] r != nil && def ==> slice == WalkV(hdr(r), indices)
 //@ ensures[C07:Traverse.fail] !ok ==> slice == nil
 //@ ensures[C17:Traverse.nil] r == nil ==> slice == nil && !ok
 //@ modifies G_calls_len, G_calls_fn, G_calls_arg
@@ -382,7 +382,7 @@ package stackage
 //@ tags C13
 //@ requires wfs(r)
 //@ let n := len(r)
-//@ ensures[C13:isNesting] is == (exists k :: 1 <= k && k < n && isStackLike(r[k]))
+//@ ensures[C13,C12:isNesting] is == (exists k :: 1 <= k && k < n && isStackLike(r[k]))
 //@ modifies nothing
 //@ loop 1 invariant 1 <= i && i <= n && !is && (forall m :: 1 <= m && m < i ==> !isStackLike(r[m]))
 
@@ -391,7 +391,7 @@ package stackage
 //@ safety C08,C17
 //@ requires r == nil || wf(r)
 //@ let L := ulen(r)
-//@ ensures[C13:IsNesting] r != nil ==> is == (exists k :: 1 <= k && k <= L && isStackLike(slot(r, k)))
+//@ ensures[C13,C12:IsNesting] r != nil ==> is == (exists k :: 1 <= k && k <= L && isStackLike(slot(r, k)))
 //@ ensures[C17:IsNesting.nil] r == nil ==> !is
 //@ modifies nothing
 
@@ -417,7 +417,7 @@ package stackage
 //@ let g := F_condition_cfg[r]
 //@ let o := F_nodeConfig_opt[g]
 //@ let ok := acceptEx(bit(o, 0x0100), F_nodeConfig_err[g], ex)
-//@ ensures[C06,C13:SetExpression] r != nil && !bit(o, 0x0080) ==> F_condition_ex[r] == ite(ok, ex, old(F_condition_ex[r]))
+//@ ensures[C06,C13,C12:SetExpression] r != nil && !bit(o, 0x0080) ==> F_condition_ex[r] == ite(ok, ex, old(F_condition_ex[r]))
 //@ ensures[C09:SetExpression.ro] r != nil && bit(o, 0x0080) ==> F_condition_ex[r] == old(F_condition_ex[r])
 //@ ensures[:SetExpression.ret] result == r
 //@ modifies F_condition_ex[r]
@@ -485,7 +485,7 @@ package stackage
 //@ tags C13
 //@ safety C06,C17
 //@ requires r == nil || cwf(r)
-//@ ensures[C13:Cond.IsNesting] is == (r != nil && isStackLike(F_condition_ex[r]))
+//@ ensures[C13,C12:Cond.IsNesting] is == (r != nil && isStackLike(F_condition_ex[r]))
 //@ modifies nothing
 
 //@ func Cond
@@ -1304,9 +1304,9 @@ package stackage
 //@ let dl := len(hdr(d))
 //@ let cp := F_nodeConfig_cap[cfgOf(d)]
 //@ let go := r != nil && isStackLike(dest) && d != nil && !bit(F_nodeConfig_opt[cfgOf(d)], 0x0080)
-//@ ensures[C15:Transfer.ok] ok ==> go && len(hdr(d)) == dl + n && (forall k :: 0 <= k && k < n ==> slot(d, dl + k) == old(slot(r, k + 1))) && (forall k :: 0 <= k && k < dl ==> slot(d, k) == old(slot(d, k)))
+//@ ensures[C15,C12:Transfer.ok] ok ==> go && len(hdr(d)) == dl + n && (forall k :: 0 <= k && k < n ==> slot(d, dl + k) == old(slot(r, k + 1))) && (forall k :: 0 <= k && k < dl ==> slot(d, k) == old(slot(d, k)))
 //@ ensures[C15:Transfer.full] go && cp != 0 && n > cp - dl ==> !ok && hdr(d) == old(hdr(d)) && Mem_Val[arr(hdr(d))] == old(Mem_Val[arr(hdr(d))])
-//@ ensures[C15:Transfer.refused] !go ==> !ok && (d != nil ==> hdr(d) == old(hdr(d)) && Mem_Val[arr(hdr(d))] == old(Mem_Val[arr(hdr(d))]))
+//@ ensures[C15,C12:Transfer.refused] !go ==> !ok && (d != nil ==> hdr(d) == old(hdr(d)) && Mem_Val[arr(hdr(d))] == old(Mem_Val[arr(hdr(d))]))
 //@ ensures[C15:Transfer.src] r != nil ==> hdr(r) == old(hdr(r)) && Mem_Val[arr(hdr(r))] == old(Mem_Val[arr(hdr(r))]) && cfgOf(r) == old(cfgOf(r))
 //@ modifies Cell_stack[d], Mem_Val[old(arr(hdr(d)))], Mem_Val[fresh], F_nodeConfig_ldr[cfgOf(d)], F_nodeConfig_err[cfgOf(d)], G_held, G_calls_len, G_calls_fn, G_calls_arg
 
@@ -1511,3 +1511,22 @@ package stackage
 //@ func derefPtr
 //@ inline
 //@ loop 1 invariant t0 != nil ==> t != nil
+
+//@ func ConvertStack
+//@ tags C12
+//@ ensures[C12:ConvertStack] result1 == isStackLike(in) && result0 == stackOf(in)
+//@ modifies nothing
+
+//@ func ConvertCondition
+//@ tags C12
+//@ ensures[C12:ConvertCondition] result1 == isCondLike(in) && result0 == condOf(in)
+//@ modifies nothing
+
+//@ func (Condition).Len
+//@ tags C12
+//@ safety C06,C17
+//@ requires r == nil || cwf(r)
+//@ let ex := F_condition_ex[r]
+//@ ensures[C12:Cond.Len] r != nil ==> result == ite(ex == nil, 0, ite(isStackLike(ex), ite(stackOf(ex) == nil, 0, ulen(stackOf(ex))), 1))
+//@ ensures[C17:Cond.Len.nil] r == nil ==> result == 0
+//@ modifies nothing
